@@ -8,12 +8,24 @@ WITNESS = os.path.join(VERIF, 'witness')
 
 
 def run_witnesses():
-    shutil.copy('/repo/Cargo.lock', os.path.join(WITNESS, 'Cargo.lock'))
+    repo = os.environ.get('VERIF_REPO', '/repo')
+    wdir, tdir = WITNESS, os.path.join(VERIF, '.cache', 'target-witness')
+    if repo != '/repo':
+        # validation runs on a scratch copy of the repository: a private copy of the witness crate pointing at it
+        wdir = '/tmp/witness' + os.environ.get('VERIF_CACHE_TAG', '-alt')
+        shutil.rmtree(wdir, ignore_errors=True)
+        shutil.copytree(WITNESS, wdir, ignore=shutil.ignore_patterns('target'))
+        ct = os.path.join(wdir, 'Cargo.toml')
+        txt = open(ct).read().replace('path = "/repo"', 'path = "%s"' % repo)
+        with open(ct, 'w') as f_:
+            f_.write(txt)
+        tdir += os.environ.get('VERIF_CACHE_TAG', '-alt')
+    shutil.copy(os.path.join(repo, 'Cargo.lock'), os.path.join(wdir, 'Cargo.lock'))
     env = dict(os.environ)
-    env.update({'CARGO_NET_OFFLINE': 'true', 'CARGO_TARGET_DIR': os.path.join(VERIF, '.cache', 'target-witness')})
+    env.update({'CARGO_NET_OFFLINE': 'true', 'CARGO_TARGET_DIR': tdir})
     env.pop('RUSTC_WORKSPACE_WRAPPER', None)
     env.pop('RUSTFLAGS', None)
-    p = subprocess.run(['cargo', '+nightly', 'test', '--doc', '--offline'], cwd=WITNESS, env=env, stdout=subprocess.PIPE, stderr=subprocess.STDOUT, text=True)
+    p = subprocess.run(['cargo', '+nightly', 'test', '--doc', '--offline'], cwd=wdir, env=env, stdout=subprocess.PIPE, stderr=subprocess.STDOUT, text=True)
     return p.returncode, p.stdout
 
 
